@@ -40,14 +40,17 @@ pub fn run(ctx: &Ctx) -> ! {
     let wb_small = World::build(&WorldCfg { epochs: 2, per_epoch: 1, with_h3: false });
     let wb_large = World::build(&WorldCfg { epochs: 3, per_epoch: 1, with_h3: false });
     let honest_b: Vec<&str> = vec!["H2"];
-    let pool_b_small = seam_b::build_pool(&wb_small, &honest_b, threads);
-    let pool_b_large = seam_b::build_pool(&wb_large, &honest_b, threads);
+    let pool_b_small = seam_b::build_pool(&wb_small, &honest_b, true, threads);
+    let pool_b_large = seam_b::build_pool(&wb_large, &honest_b, true, threads);
+    // the deep plain plan of the thorough tier runs without the length-2 segments
+    let pool_b_large_plain = seam_b::build_pool(&wb_large, &honest_b, false, threads);
     let plans: Vec<(&World, &seam_b::PoolB, Bounds)> = if quick {
-        vec![(&wb_small, &pool_b_small, Bounds { max_calls: 2, max_devs: 1 })]
+        vec![(&wb_small, &pool_b_small, Bounds { max_calls: 2, max_devs: 1, disguised_answers: true })]
     } else {
         vec![
-            (&wb_large, &pool_b_large, Bounds { max_calls: 3, max_devs: 1 }),
-            (&wb_small, &pool_b_small, Bounds { max_calls: 2, max_devs: 2 }),
+            (&wb_large, &pool_b_large_plain, Bounds { max_calls: 3, max_devs: 1, disguised_answers: false }),
+            (&wb_large, &pool_b_large, Bounds { max_calls: 2, max_devs: 1, disguised_answers: true }),
+            (&wb_small, &pool_b_small, Bounds { max_calls: 2, max_devs: 2, disguised_answers: false }),
         ]
     };
     rep.extra(
@@ -56,14 +59,16 @@ pub fn run(ctx: &Ctx) -> ! {
             "A_epochs_after_genesis": world_cfg.epochs, "A_chains": w.chains.iter().map(|c| format!("{}({} certificates)", c.name, c.certs.len())).collect::<Vec<_>>(),
             "A_pool": pool.members.len(), "A_retarget_epoch_radius": mut_cfg.retarget_epoch_radius,
             "B_honest_chains": honest_b,
-            "B_histories": plans.iter().map(|(_, p, b)| format!("pool of {} certificates: <= {} verify_chain calls, <= {} provider deviations", p.members.len(), b.max_calls, b.max_devs)).collect::<Vec<_>>(),
+            "B_histories": plans.iter().map(|(_, p, b)| format!("pool of {} certificates: <= {} verify_chain calls, <= {} provider deviations{}", p.members.len(), b.max_calls, b.max_devs, if b.disguised_answers { " (any member, any member's content under the requested hash, not-found, error)" } else { " (any member, not-found, error)" })).collect::<Vec<_>>(),
         }),
     );
 
     if let Some(path) = &ctx.replay {
         let v = mc_core::load_replay(path);
         let large = v["pool_b"].as_u64() == Some(pool_b_large.members.len() as u64);
-        if large {
+        if v["pool_b"].as_u64() == Some(pool_b_large_plain.members.len() as u64) {
+            replay(ctx, rep, &v, &pool, &w, &pool_b_large_plain, &wb_large);
+        } else if large {
             replay(ctx, rep, &v, &pool, &w, &pool_b_large, &wb_large);
         } else {
             replay(ctx, rep, &v, &pool, &w, &pool_b_small, &wb_small);
@@ -145,7 +150,7 @@ pub fn run(ctx: &Ctx) -> ! {
         b_calls += r.calls;
         let mut part = r.rep;
         // keep the per-bound breakdown under distinct names
-        let tag = format!("B[pool{},{}calls,{}devs]", pool_b.members.len(), b.max_calls, b.max_devs);
+        let tag = format!("B[pool{},{}calls,{}devs{}]", pool_b.members.len(), b.max_calls, b.max_devs, if b.disguised_answers { ",disguised" } else { "" });
         for k in ["B_depths", "B_distinct_cache_states"] {
             if let Some(v) = part.extras.remove(k) {
                 part.extras.insert(format!("{tag}_{k}"), v);
